@@ -674,10 +674,13 @@ def valid_request(G, mx, tx):
     return f"{nT} {nN} {ni[G['start']]} {start} R {rules} S {'|'.join(states)} A {arows} G {grows}"
 
 
-def validate_automata(rep, cases, tight=False):
+def validate_automata(rep, cases, tight=False, halts=None):
     """cases: [(label, text, G, impl stages line)] for accepted grammars.  Runs the proved-sound validator
     (Proofs/Valid.validB) on the implementation's own machine and table.  Returns number validated.
-    With tight=True also Proofs/Tight.tightB (CoreSound + NonEmpty, the extra hypotheses of the C03 theorem)."""
+    With tight=True also Proofs/Tight.tightB (CoreSound + NonEmpty, the extra hypotheses of the C03 theorem).
+    With halts=<dict> also LR/Halt.certified (termination certificate: hypothesis of C01_certified_decides); the
+    dict receives the counts.  A table without certificate is *not* a violation (the check is sufficient, not
+    necessary); an actual non-terminating run is caught by the watchdog of the compiled-parser run."""
     reqs, keep = [], []
     for label, text, G, line in cases:
         ip = corr.split_stages(line)
@@ -690,6 +693,15 @@ def validate_automata(rep, cases, tight=False):
             rep.violation("machine/table of the implementation cannot be read for validation: " + repr(e), {"source": text}, no_input=True)
     outs = kv.run_model("valid", reqs)
     touts = kv.run_model("tight", reqs) if tight else ["(tight true productive true)"] * len(reqs)
+    if halts is not None:
+        houts = kv.run_model("halts", reqs)
+        cert = [(lab, o.split()) for (lab, _, _), o in zip(keep, houts)]
+        halts["tables_checked"] = len(cert)
+        halts["certified_framed"] = sum(1 for _, o in cert if o[1] == "true")
+        halts["uncertified_framed"] = [lab for lab, o in cert if o[1] != "true"][:20]
+        halts["certified_potential"] = sum(1 for _, o in cert if o[3] == "true")
+        bounds = [int(o[5].rstrip(")")) for _, o in cert if o[3] == "true"]
+        halts["max_steps_per_token_potential"] = max(bounds) if bounds else 0
     bad = 0
     for (label, text, G), o, to in zip(keep, outs, touts):
         if o != "(valid true)":
@@ -867,7 +879,8 @@ def _impl_res(r, si):
 def run_C01(rep, tier, rng):
     recs = _driver_common(rep, tier)
     lines = kv.run_impl("stages", corr.stage_requests([r["text"] for r in recs]))
-    validated = validate_automata(rep, [(r["label"], r["text"], r["G"], l) for r, l in zip(recs, lines) if l.startswith("(stages")])
+    hstats = {}
+    validated = validate_automata(rep, [(r["label"], r["text"], r["G"], l) for r, l in zip(recs, lines) if l.startswith("(stages")], halts=hstats)
     ev, acc, dis = 0, 0, []
     for r in recs:
         G = r["G"]
@@ -895,7 +908,8 @@ def run_C01(rep, tier, rng):
     return {"evaluations": ev, "distinct_nontrivial": sum(1 for r in recs for s in r["strings"] if len(s) >= 2),
             "rule": "accepted grammars from the C04 pool; per grammar all token strings up to length 3 (quick) / 5 (thorough) plus random sentences and their single-token mutations; the emitted module is compiled with rustc and run; verdict compared with an Earley recogniser on the declared productions (oracle) and with the model driver; non-trivial = at least 2 tokens",
             "samples": sample([{"source": r["text"], "tokens": r["strings"][-1], "impl": r["impl"][-1]} for r in recs[20:]]),
-            "grammars_compiled": len(recs), "automata_validated_by_validB": validated, "sentences": acc, "model_disagreements": len(dis)}
+            "grammars_compiled": len(recs), "automata_validated_by_validB": validated, "sentences": acc, "model_disagreements": len(dis),
+            "termination_certificates": hstats}
 
 
 def run_C02(rep, tier, rng):
@@ -1743,15 +1757,15 @@ def run_C16(rep, tier, rng):
 
 # =========================================================================================== registry
 
-register("C01", run_C01, ["C01.C01_every_grammar", "C01.C01_generator_passes_validator", "C01.C01_coding_faithful", "C01.C01_no_panic_and_sound", "C01.C01_complete", "C01.C01_accepts_iff", "C01.C01_sentences_terminate"])
+register("C01", run_C01, ["C01.C01_every_grammar", "C01.C01_generator_passes_validator", "C01.C01_coding_faithful", "C01.C01_no_panic_and_sound", "C01.C01_complete", "C01.C01_accepts_iff", "C01.C01_sentences_terminate", "C01.C01_framed_decides", "C01.C01_framed_halts", "C01.C01_certified_decides", "C01.C01_potential_halts"])
 register("C02", run_C02, ["C02.C02_every_grammar", "C02.C02_tree", "C02.C02_that_tree", "C02.C02_unique", "C02.C02_faithful"])
-register("C03", run_C03, ["C03.C03_every_grammar", "C03.C03_viable", "C03.C03_not_early", "C03.C03_lookahead_only", "C03.C03_first_offending", "C03.C03_front_end", "C03.C03_front_end_first_offending"])
+register("C03", run_C03, ["C03.C03_every_grammar", "C03.C03_viable", "C03.C03_not_early", "C03.C03_lookahead_only", "C03.C03_first_offending", "C03.C03_front_end", "C03.C03_front_end_first_offending", "C03.C03_framed_rejects"])
 register("C04", run_C04, ["C04.C04_emitted_iff_conflict_free", "C04.C04_setAction_ok_iff", "C04.C04_setAction_fresh", "C04.C04_ok_conflict_free", "C04.C04_conflict_genuine"])
 register("C05", run_C05, ["C05.C05_names_distinct", "C05.C05_names_exist", "C05.C05_fresh"])
 register("C06", run_C06, ["C06.C06_fields", "C06.C06_items_and_signature"])
-register("C07", run_C07, ["C07.C07_generate_no_panic", "C07.C07_emission_total", "C07.C07_validate_no_panic", "C07.C07_generator_no_panic", "C07.C07_generator_total", "C07.C07_parse_error_no_panic", "C07.bracketScan_no_panic", "C07.C07_handleMain_no_panic", "C07.C07_tokenize_total", "C07.C07_parse_no_panic", "C07.C07_cst_to_ast_total"])
+register("C07", run_C07, ["C07.C07_generate_total", "C07.C07_front_parse_halts", "C07.C07_generate_no_panic", "C07.C07_emission_total", "C07.C07_validate_no_panic", "C07.C07_generator_no_panic", "C07.C07_generator_total", "C07.C07_parse_error_no_panic", "C07.bracketScan_no_panic", "C07.C07_handleMain_no_panic", "C07.C07_tokenize_total", "C07.C07_parse_no_panic", "C07.C07_cst_to_ast_total"])
 register("C08", run_C08, ["C08.C08_positions", "C08.C08_scan_total", "C08.C08_double_colon", "C08.C08_tokenize_eq_spec", "C08.C08_tokenize_total"])
-register("C09", run_C09, ["C09.C09_error_span", "C09.C09_kinds", "C09.C09_nonterminals", "C09.C09_rule_numbering", "C09.C09_reduce_arms", "C09.C09_table_valid", "C09.C09_parse_correct", "C09.C09_flatten"])
+register("C09", run_C09, ["C09.C09_error_span", "C09.C09_kinds", "C09.C09_nonterminals", "C09.C09_rule_numbering", "C09.C09_reduce_arms", "C09.C09_table_valid", "C09.C09_parse_correct", "C09.C09_flatten", "C09.C09_parse_decides"])
 register("C10", run_C10, ["C10.C10_one_start_one_terminal", "C10.C10_ok_sound", "C10.C10_err_truthful", "C10.C10_truthful_not_wellFormed", "C10.C10_ok_iff_wellFormed", "C10.C10_no_panic"])
 register("C11", run_C11, ["C11.C11_attached_automaton", "C11.C11_setAction_conflict", "C11.C11_payload"])
 register("C12", run_C12, ["C12.C12_emit", "C12.C12_token", "C12.C12_order"])
